@@ -5,6 +5,7 @@ CONSTANTS
   NW = 0
   NER = 0
   NEnt = 2
+  Hier = 0
   NTy = 2
   NVal = 2
   OpNames = {}
